@@ -178,17 +178,42 @@ def run_instance(ctx, sh):
         st = rec["state"]
         pathsc = {t.path_number: t for t in st._trajs[:-1]}
         recc = _fresh_rec()
+        worldc = X.World()
         try:
-            _run(ctx, cfgc, pathsc, recc)
+            _run(ctx, cfgc, pathsc, recc, worldc)
         except core.Inconclusive:
             raise
         except (core._Abort, core._Stop, core._Skip):
             raise
         except Exception as e:
+            core.reraise_if_proxy_limitation(e)
             ctx.fail("C17:no-exception", X._tb(e))
         _claims(ctx, recc, c0 + m, r - m, N, w, "after-crash")
         if w >= 2:
             ctx.cover("run:restarted-with-in-flight")
+        # the run that was restarted after the death is finished now: nothing may be recorded as in flight, and it can be
+        # continued with a larger step count like any other finished run
+        cfgd = copy.deepcopy(worldc.tomls[-1])
+        for sec, key in (("current", "cstep"), ("simulation", "steps")):
+            if isinstance(cfgd[sec][key], str):
+                cfgd[sec][key] = core.parse_number(cfgd[sec][key])
+        ctx.check(cfgd["current"]["locked"] == [], "C17:finished-run-records-no-job-in-flight",
+                  f"after crash+restart: {cfgd['current']['locked']}")
+        cfgd["current"]["restarted_from"] = cfgd["current"]["cstep"]
+        cfgd["simulation"]["steps"] = N + w
+        std = recc["state"]
+        pathsd = {t.path_number: t for t in std._trajs[:-1]}
+        recd = _fresh_rec()
+        try:
+            _run(ctx, cfgd, pathsd, recd)
+        except core.Inconclusive:
+            raise
+        except (core._Abort, core._Stop, core._Skip):
+            raise
+        except Exception as e:
+            core.reraise_if_proxy_limitation(e)
+            ctx.fail("C17:restarting-with-a-larger-step-count-continues", X._tb(e))
+        _claims(ctx, recd, N, w, N + w, w, "continued-after-crash")
         return
     try:
         world = _run(ctx, cfg, paths, rec)
@@ -197,6 +222,7 @@ def run_instance(ctx, sh):
     except (core._Abort, core._Stop, core._Skip):
         raise
     except Exception as e:
+        core.reraise_if_proxy_limitation(e)
         ctx.fail("C17:no-exception", X._tb(e))
     _claims(ctx, rec, c0, r, N, w, "first")
     ctx.cover("run:finished")
@@ -222,6 +248,7 @@ def run_instance(ctx, sh):
     except (core._Abort, core._Stop, core._Skip):
         raise
     except Exception as e:
+        core.reraise_if_proxy_limitation(e)
         ctx.fail("C17:no-exception", X._tb(e))
     _claims(ctx, rec2, N, d, N + d, w, "continued")
     ctx.cover("run:continued")
